@@ -84,6 +84,15 @@ func (t *Term) String() string {
 		return "idx(" + t.Args[0].String() + ")"
 	case "lookup":
 		return t.Args[0].String() + "[" + t.Args[1].String() + "]"
+	case "recv":
+		return "<-" + t.Args[0].String()
+	case "loop":
+		as := make([]string, len(t.Args))
+		for i, a := range t.Args {
+			as[i] = a.String()
+		}
+		sort.Strings(as)
+		return "loop{" + strings.Join(as, " | ") + "}"
 	}
 	if t.Name != "" {
 		return t.Op + ":" + t.Name
@@ -254,6 +263,17 @@ func (s *Symx) of(v ssa.Value, visiting map[ssa.Value]bool, depth int) *Term {
 				return mkPhi(alts, v)
 			}
 		}
+		if sel, ok := x.Tuple.(*ssa.Select); ok && x.Index >= 2 {
+			k := 2
+			for _, st := range sel.States {
+				if st.Dir == types.RecvOnly {
+					if k == x.Index {
+						return &Term{Op: "recv", Args: []*Term{rec(st.Chan)}, Val: v}
+					}
+					k++
+				}
+			}
+		}
 		return &Term{Op: "extract", Name: fmt.Sprint(x.Index), Args: []*Term{tup}, Val: v}
 	case *ssa.Phi:
 		var alts []*Term
@@ -292,9 +312,17 @@ func isNillable(t types.Type) bool {
 func mkPhi(alts []*Term, v ssa.Value) *Term {
 	seen := map[string]bool{}
 	var out []*Term
+	loop := false
+	defer func() { _ = loop }()
 	for _, a := range alts {
 		for _, x := range a.Alts() {
 			if x.Op == "cycle" {
+				loop = true
+				continue
+			}
+			if containsCycle(x, v) {
+				// loop-carried update of this very phi (e.g. i+1): summarised by the loop marker
+				loop = true
 				continue
 			}
 			k := x.String()
@@ -304,10 +332,26 @@ func mkPhi(alts []*Term, v ssa.Value) *Term {
 			}
 		}
 	}
+	if loop && v != nil {
+		return &Term{Op: "loop", Args: out, Val: v}
+	}
 	if len(out) == 1 {
 		return out[0]
 	}
 	return &Term{Op: "phi", Args: out, Val: v}
+}
+
+func containsCycle(t *Term, v ssa.Value) bool {
+	if v == nil {
+		return false
+	}
+	found := false
+	t.Walk(func(x *Term) {
+		if x.Op == "cycle" && x.Val == v {
+			found = true
+		}
+	})
+	return found
 }
 
 func derefStruct(t types.Type) *types.Struct {
@@ -557,4 +601,57 @@ func ReachingStores(u *ssa.UnOp, a *ssa.Alloc) (vals []ssa.Value, entry bool) {
 		}
 	}
 	return vals, entry
+}
+
+// Brief renders a term compactly (callee base names, no arguments, no spaces) for use in obligation keys.
+func (t *Term) Brief() string {
+	if t == nil {
+		return "nil"
+	}
+	switch t.Op {
+	case "call":
+		n := t.Name
+		if i := strings.LastIndex(n, "."); i >= 0 {
+			n = n[i+1:]
+		}
+		if strings.HasPrefix(t.Name, "conv:") && len(t.Args) == 1 {
+			return t.Args[0].Brief()
+		}
+		return n + "()"
+	case "field":
+		return t.Args[0].Brief() + "." + t.Name
+	case "extract":
+		return t.Args[0].Brief() + "#" + t.Name
+	case "binop":
+		return "(" + t.Args[0].Brief() + t.Name + t.Args[1].Brief() + ")"
+	case "unop":
+		return t.Name + t.Args[0].Brief()
+	case "const":
+		return "K"
+	case "index", "lookup":
+		return t.Args[0].Brief() + "[]"
+	case "phi":
+		as := make([]string, 0, len(t.Args))
+		seen := map[string]bool{}
+		for _, a := range t.Args {
+			b := a.Brief()
+			if !seen[b] {
+				seen[b] = true
+				as = append(as, b)
+			}
+		}
+		sort.Strings(as)
+		return "phi{" + strings.Join(as, "|") + "}"
+	case "deref":
+		return "*" + t.Args[0].Brief()
+	case "len":
+		return "len(" + t.Args[0].Brief() + ")"
+	case "lit":
+		return t.Name + "{}"
+	case "recv":
+		return "<-" + t.Args[0].Brief()
+	case "loop":
+		return "loopvar"
+	}
+	return strings.ReplaceAll(t.String(), " ", "")
 }
